@@ -201,6 +201,8 @@ def truthy(v, st):
     if k == 'opt':
       inner = VRef(v.t, v.ty.args[0])
       return z3.And(v.t != NONE, truthy(inner, st))
+    if k == 'union':
+      return z3.And(v.t != NONE, truthy_u(v.t))
     return truthy_u(v.t)
   raise Unsupported('truthiness of %r' % (v,))
 
